@@ -4,11 +4,11 @@ package piece
 
 // VerifYieldHook, when set, is called at named points where no lock is
 // held, so that a verification harness can decide which goroutine runs
-// next.
-var VerifYieldHook func(point string)
+// next.  index is the piece concerned, or -1.
+var VerifYieldHook func(point string, index int)
 
-func verifYield(point string) {
+func verifYield(point string, index int) {
 	if h := VerifYieldHook; h != nil {
-		h(point)
+		h(point, index)
 	}
 }
